@@ -769,6 +769,76 @@ class _AliasIntro(ast.NodeTransformer):
         return n
 
 
+_ARGKW = None
+
+
+def _argkw_map():
+    """(relpath, lineno, col_offset) of a call -> parameter names of its positional arguments, for calls the analyser resolves to
+    exactly one project function (constructors included) that binds without problems; computed on the raw (un-normalised) tree"""
+    global _ARGKW
+    if _ARGKW is None:
+        os.environ["WV_NO_DESUGAR"] = "1"
+        os.environ["WV_NO_INLINE"] = "1"
+        os.environ["WV_NO_KWNORM"] = "1"
+        try:
+            from wv.model import Program
+            from wv import norm
+            from wv.rules.common import calls_of, bind_args
+            prog = Program(SRC)
+            C = calls_of(prog)
+            _ARGKW = {}
+            for f in prog.functions.values():
+                for c in norm.calls_in(f.node):
+                    if not c.args or any(isinstance(a, ast.Starred) for a in c.args) or any(k.arg is None for k in c.keywords):
+                        continue
+                    r = C.resolve(f, c)
+                    if r.kind != "exact" or len(r.targets) != 1:
+                        continue
+                    t = r.targets[0]
+                    a = t.node.args
+                    if a.vararg is not None or getattr(a, "posonlyargs", None):
+                        continue
+                    unbound = isinstance(c.func, ast.Attribute) and isinstance(c.args[0], ast.Name) and c.args[0].id == "self" \
+                        and "classmethod" not in t.decorators and norm.canon(c.func.value) != "self" and not isinstance(c.func.value, ast.Call) \
+                        and t.cls is not None
+                    if unbound:
+                        continue
+                    m, probs = bind_args(c, t)
+                    if not m or probs:
+                        continue
+                    params = [x.arg for x in a.args]
+                    if t.cls is not None and "staticmethod" not in t.decorators and params and params[0] in ("self", "cls"):
+                        params = params[1:]
+                    if len(c.args) > len(params):
+                        continue
+                    names = params[:len(c.args)]
+                    if any(n_.startswith("__") for n_ in names):
+                        continue
+                    _ARGKW[(f.module.relpath, c.lineno, c.col_offset, c.end_lineno, c.end_col_offset)] = names
+        finally:
+            del os.environ["WV_NO_DESUGAR"]
+            del os.environ["WV_NO_INLINE"]
+            del os.environ["WV_NO_KWNORM"]
+    return _ARGKW
+
+
+def t_argkw(src, rel=None):
+    """f(a, b) -> f(x=a, y=b) for calls resolved to exactly one project function (evaluation order is unchanged)"""
+    amap = _argkw_map()
+    tree = ast.parse(src)
+    key_rel = [k for k in (rel, "src/" + (rel or "")) if k]
+    for c in ast.walk(tree):
+        if isinstance(c, ast.Call) and c.args:
+            names = None
+            for kr in key_rel:
+                names = names or amap.get((kr, c.lineno, c.col_offset, c.end_lineno, c.end_col_offset))
+            if names and len(names) == len(c.args):
+                c.keywords = [ast.keyword(arg=n_, value=a) for n_, a in zip(names, c.args)] + c.keywords
+                c.args = []
+    ast.fix_missing_locations(tree)
+    return ast.unparse(tree) + "\n"
+
+
 def _mk(cls):
     def t(src):
         tree = cls().visit(ast.parse(src))
@@ -784,7 +854,7 @@ t_whiletrue, t_compr2loop, t_aliasintro = _mk(_WhileTrue), _mk(_Compr2Loop), _mk
 
 TRANSFORMS = {"ifexp2stmt": t_ifexp2stmt, "stmt2ifexp": t_stmt2ifexp, "tuplesplit": t_tuplesplit, "tuplemerge": t_tuplemerge,
               "andsplit": t_andsplit, "demorgan": t_demorgan, "loopunpack": t_loopunpack, "rettemp": t_rettemp,
-              "whiletrue": t_whiletrue, "compr2loop": t_compr2loop, "aliasintro": t_aliasintro,
+              "whiletrue": t_whiletrue, "compr2loop": t_compr2loop, "aliasintro": t_aliasintro, "argkw": t_argkw,
               "unparse": t_unparse, "rename": t_rename, "augassign": t_augassign, "ifswap": t_ifswap,
               "elsedrop": t_elsedrop, "passins": t_passins, "py3": t_py3, "noise": t_noise, "cmpflip": t_cmpflip, "aliasinline": t_aliasinline}
 
@@ -794,7 +864,7 @@ def overlay(name):
     out = {}
     for rel, src in sources().items():
         try:
-            out[rel] = fn(src)
+            out[rel] = fn(src, rel) if fn is t_argkw else fn(src)
         except SyntaxError:
             out[rel] = src
     return out
